@@ -38,6 +38,7 @@ import ast
 import copy
 import json
 import os
+import re
 
 JUMP = (ast.Return, ast.Raise, ast.Continue, ast.Break)
 CONSUMERS = {'join', 'any', 'all', 'sum', 'min', 'max', 'sorted', 'list', 'tuple', 'set', 'frozenset', 'dict'}
@@ -1237,6 +1238,8 @@ def _tail_returns(stmts: list, res: str):
             if a is None or b is None:
                 return None
             return head[:i] + [ast.copy_location(ast.If(test=st.test, body=a, orelse=b), st)]
+    if isinstance(last, ast.Raise):
+        return list(stmts)  # a tail that does not return
     if isinstance(last, ast.Return):
         v = last.value if last.value is not None else ast.Constant(value=None)
         return head + [ast.copy_location(ast.Assign(targets=[ast.Name(id=res, ctx=ast.Store())], value=v, type_comment=None), last)]
@@ -1321,6 +1324,105 @@ def _inline_body(helper: ast.FunctionDef, call: ast.Call, is_method: bool, tag: 
     return out, result
 
 
+_EXPANSION_NAME = re.compile(r'__h\d+$')
+
+
+def _coalesce_expansion_copies(fn: ast.AST) -> bool:
+    """`x__h = E ... y = x__h`: a local of an expanded helper that is only handed over to a name (or to a slot `v[i]` of a local) of the caller
+    IS that name / slot.
+
+    x__h (one plain definition d, written by the expansion) is renamed to y and the copy c removed when, on the statement graph of the function,
+    (1) no reader of y can be reached from d without passing a writer of y (c included): y is written before it is read wherever the renamed
+        definition now reaches (for a slot: no statement that mentions the container at all, other than through c), and
+    (2) no other writer of y (for a slot: of the container, of its index, or of any of its slots) lies between d and a reader of x__h or c.
+    Only names created by the expansion are renamed; code that was written with a copy keeps it."""
+    if not isinstance(fn, ast.FunctionDef):
+        return False
+    from .cfg import CFG
+
+    changed = False
+    params = {a.arg for a in fn.args.args + fn.args.kwonlyargs + fn.args.posonlyargs}
+    for _round in range(12):
+        inner = {id(m) for n in ast.walk(fn) if isinstance(n, (ast.FunctionDef, ast.Lambda)) and n is not fn for m in ast.walk(n) if m is not n}
+        names = [n for n in ast.walk(fn) if isinstance(n, ast.Name)]
+        captured = {n.id for n in names if id(n) in inner}
+        comp_targets = {m.id for n in ast.walk(fn) if isinstance(n, ast.comprehension) for m in ast.walk(n.target) if isinstance(m, ast.Name)}
+        copies = [st for st in ast.walk(fn) if isinstance(st, ast.Assign) and id(st) not in inner and len(st.targets) == 1
+                  and isinstance(st.value, ast.Name) and _EXPANSION_NAME.search(st.value.id)]
+        done = False
+        cfg = None
+        for c in copies:
+            x, t = c.value.id, c.targets[0]
+            if isinstance(t, ast.Name):
+                root, index = t.id, None
+            elif isinstance(t, ast.Subscript) and isinstance(t.value, ast.Name) and isinstance(t.slice, (ast.Name, ast.Constant)):
+                root, index = t.value.id, (t.slice.id if isinstance(t.slice, ast.Name) else None)
+            else:
+                continue
+            slot = isinstance(t, ast.Subscript)
+            involved = {x, root} | ({index} if index else set())
+            if x == root or involved & captured or involved & comp_targets or {x, root} & params:
+                continue
+            stores_x = [n for n in names if n.id == x and isinstance(n.ctx, (ast.Store, ast.Del))]
+            if len(stores_x) != 1:
+                continue
+            d = next((st for st in ast.walk(fn) if isinstance(st, ast.Assign) and len(st.targets) == 1 and st.targets[0] is stores_x[0]), None)
+            if d is None:
+                continue
+            cfg = cfg or CFG(fn)
+            nd, nc = cfg.node_of(d), cfg.node_of(c)
+            if nd is None or nc is None:
+                continue
+            in_target = {id(m) for m in ast.walk(t)}
+            if not slot:
+                writers = {cfg.node_of(n) for n in names if n.id == root and isinstance(n.ctx, (ast.Store, ast.Del))}
+                killers = set(writers)
+                readers_y = {cfg.node_of(n) for n in names if n.id == root and isinstance(n.ctx, ast.Load)}
+            else:
+                writers = {cfg.node_of(n) for n in names if n.id in (root, index) and isinstance(n.ctx, (ast.Store, ast.Del))}
+                writers |= {cfg.node_of(n) for n in ast.walk(fn) if isinstance(n, ast.Subscript) and isinstance(n.ctx, (ast.Store, ast.Del)) and isinstance(n.value, ast.Name) and n.value.id == root}
+                killers = {nc}
+                readers_y = {cfg.node_of(n) for n in names if n.id == root and id(n) not in in_target}
+            readers_x = {cfg.node_of(n) for n in names if n.id == x and isinstance(n.ctx, ast.Load) and n is not c.value}
+            if None in writers or None in readers_y or None in readers_x or nd in readers_y:
+                continue
+            if any(cfg.path_avoiding(nd, r, killers) for r in readers_y if not (slot and r == nc)):
+                continue
+            if slot and nc in readers_y and any(isinstance(m, ast.Name) and m.id == root for m in ast.walk(c.value)):
+                continue
+            others = writers - {nc}
+            if any(cfg.reaches(nd, w) and cfg.path_avoiding(w, r, {nd}) for w in others for r in readers_x | {nc}):
+                continue
+            if not slot:
+                for n in names:
+                    if n.id == x:
+                        n.id = root
+            else:
+                class _R(ast.NodeTransformer):
+                    def visit_Name(self, node):
+                        if node.id != x:
+                            return node
+                        new = copy.deepcopy(t)
+                        new.ctx = type(node.ctx)()
+                        return ast.copy_location(new, node)
+                _R().visit(fn)
+            for owner, field in _blocks(fn):
+                stmts = getattr(owner, field)
+                if any(st is c for st in stmts):
+                    rest = [st for st in stmts if st is not c]
+                    if not rest and isinstance(owner, ast.If) and field == 'body' and owner.orelse:
+                        owner.test = negate(owner.test)
+                        owner.body, owner.orelse = owner.orelse, []
+                    else:
+                        setattr(owner, field, rest or [ast.copy_location(ast.Pass(), c)])
+            ast.fix_missing_locations(fn)
+            changed = done = True
+            break
+        if not done:
+            break
+    return changed
+
+
 def inline_unknown_helpers(tree: ast.Module, path: str) -> None:
     """calls of functions of this module / class that are not in the inventory of the reference tree are expanded in place"""
     inv = inventory()
@@ -1398,6 +1500,7 @@ def inline_unknown_helpers(tree: ast.Module, path: str) -> None:
             setattr(owner, field, out)
         if changed:
             ast.fix_missing_locations(fn)
+            _coalesce_expansion_copies(fn)
             expand_in(fn, cls_helpers, depth + 1)
 
     for h in mod_helpers.values():
